@@ -710,7 +710,7 @@ func c12GenWorld(t *rapid.T) c12World {
 	return w
 }
 
-var c12FutureOffsets = []int64{c12Minute, c12Hour, 6 * c12Day, c12Week - 2*c12Minute, c12Week + 2*c12Minute, 30 * c12Day}
+var c12FutureOffsets = []int64{c12Minute, c12Hour, 6 * c12Day, c12Week - 2*c12Minute, c12Week + 2*c12Minute, 30 * c12Day, 8300000000000 /* past the year 2262 */}
 var c12PastOffsets = []int64{-c12Minute, -c12Hour, -30 * c12Day}
 
 func c12GenExpired(t *rapid.T, label string) c12TS {
@@ -907,7 +907,9 @@ func c12GenRequests(t *rapid.T, w c12World, held []c12Key) []c12Req {
 		msg, tg, ids := c12GenMessage(t, w, server)
 		// AtTS: around the boundaries of the records held anywhere for this message's keys
 		cands := []c12TS{c12Rel(0), c12Abs(0), c12Abs(1), c12Rel(-c12Day), c12Rel(c12Week - c12Minute), c12Rel(c12Week + c12Minute),
-			c12Rel(c12Week - 3*c12Minute), c12Rel(c12Week + 3*c12Minute), c12Rel(40 * c12Day)}
+			c12Rel(c12Week - 3*c12Minute), c12Rel(c12Week + 3*c12Minute), c12Rel(40 * c12Day),
+			// (centuries ahead: beyond what a time.Duration / UnixNano can hold)
+			c12Abs(9223372036854), c12Abs(9223372036855), c12Abs(9300000000000), c12Abs(18446744073709)}
 		for _, h := range held {
 			if h.Server != server {
 				continue
